@@ -83,24 +83,39 @@ def _job(job):
     try:
         rc, out, err = cbuild.run(_exe, args, timeout=tmo, env=_SAN_ENV)
     except subprocess.TimeoutExpired:
-        return {"name": name, "args": args, "rc": None, "js": None, "v": [], "crash": None, "err": "timeout after %ds" % tmo}
-    js, v, crash, panic = None, [], None, None
+        return {"name": name, "args": args, "rc": None, "js": None, "v": [], "hd": [], "crash": None, "err": "timeout after %ds" % tmo}
+    js, v, hd, crash, panic = None, [], [], None, None
     for line in out.decode(errors="replace").splitlines():
         if line.startswith("V "):
             parts = line[2:].split(" | ")
             if len(parts) == 3:
                 v.append(tuple(parts))
+        elif line.startswith("HD "):
+            parts = line[3:].split(" | ")
+            if len(parts) == 4:
+                hd.append(tuple(parts))
         elif line.startswith("CRASH | "):
             crash = line[8:].strip()
         elif line.startswith("PANIC | "):
             panic = line[8:].strip()
         elif line.startswith("{"):
             try:
-                js = json.loads(line)
+                d = json.loads(line)
+                js = dict(js or {}, **d)
             except ValueError:
                 pass
-    return {"name": name, "args": args, "rc": rc, "js": js, "v": v, "crash": crash,
+    if js is not None and "violations" not in js and "harness_error" not in js:
+        js = None                    # only a partial counter line: the run did not finish
+    return {"name": name, "args": args, "rc": rc, "js": js, "v": v, "hd": hd, "crash": crash,
             "err": ("osmo_panic:" + re.sub(r"0x[0-9a-f]+", "0x..", panic)) if panic else _san_summary(err.decode(errors="replace"))}
+
+
+def _died(r):
+    return r["rc"] is not None and (r["js"] is None or r["rc"] not in (0, 1))
+
+
+HD_TEXT = ("the result of an event list depends on what ran before it in the same process: the code under test keeps state outside "
+           "the `sercomm` structure (or state that sercomm_init() does not set up again) that survives from one case to the next")
 
 
 def _crash_key(token):
@@ -116,20 +131,45 @@ def _crash_key(token):
     return "C06:dlci=0x%02x:%scrash" % (d, "after-overlong:" if any(j < i for j in longs) else "")
 
 
-def _report(ctx, r):
+def _report(ctx, r, confirmed=None):
+    """Self-contained violations of one driver run -> ctx (every V line carries an event list that the driver has already
+    re-run alone in a pristine process).  Returns True if the run completed."""
     mode = r["args"][0]
     for key, msg, token in r["v"]:
         ctx.violation(key, {"token": token, "mode": mode, "args": r["args"]}, "%s | events: %s [%s]" % (msg, token, r["name"]))
+        if confirmed is not None:
+            confirmed.add(key)
     if r["rc"] is None:
         ctx.violation("C06:hang:%s" % mode, {"token": "-", "mode": mode, "args": r["args"]}, "driver did not finish (%s): %s" % (r["name"], r["err"]))
         return False
     if r["js"] is not None and "harness_error" in r["js"]:
         raise HarnessError("drv_c06 %s: %s" % (r["name"], r["js"]["harness_error"]))
-    if r["js"] is None or r["rc"] not in (0, 1):
-        ctx.violation(_crash_key(r["crash"]), {"token": r["crash"] or "-", "mode": mode, "args": r["args"]},
-                      "driver died (rc=%s) in %s at events %s: %s" % (r["rc"], r["name"], r["crash"], r["err"]))
-        return False
-    return True
+    return not _died(r)
+
+
+def _report_crash(ctx, r):
+    """The driver died (panic, abort, sanitizer report).  The event list it was executing is re-run alone in a fresh
+    process: if it dies there too it is an ordinary, replayable violation, otherwise the death is history dependent."""
+    mode, tok = r["args"][0], r["crash"] or "-"
+    if tok != "-":
+        rr = _job(("crash-recheck", ["case", tok], 600))
+        if _died(rr):
+            ctx.violation(_crash_key(tok), {"token": tok, "mode": mode, "args": r["args"]},
+                          "driver died (rc=%s) in %s at events %s: %s" % (r["rc"], r["name"], tok, r["err"]))
+            return
+    vkey = "C06:history-dependent:crash:%s" % mode
+    ctx.violation(vkey, {"hd_key": "crash", "vkey": vkey, "token": "-", "mode": mode, "args": r["args"]},
+                  "driver died (rc=%s) in %s at events %s (%s); these events alone in a fresh process do not kill it - %s"
+                  % (r["rc"], r["name"], tok, r["err"], HD_TEXT))
+
+
+def _report_hd(ctx, r, confirmed):
+    for key, msg, example, note in r["hd"]:
+        if key in confirmed:
+            continue                 # a self-contained event list for this key exists (possibly from another run)
+        vkey = "C06:history-dependent:%s" % (key[4:] if key.startswith("C06:") else key)
+        ctx.violation(vkey, {"hd_key": key, "vkey": vkey, "token": "-", "mode": r["args"][0], "args": r["args"]},
+                      "%s (e.g. after %s) - seen inside the exploration [%s], but %s; %s" % (msg, example, r["name"], note, HD_TEXT))
 
 
 def run(ctx):
@@ -151,12 +191,17 @@ def run(ctx):
                 "noise_transitions", "overlong_transitions", "states_out_of_sync", "states_mid_frame")
         other = ("transfers", "special_tuples", "boundary_cases", "resync_scenarios", "echo_cases", "frames", "exact_deliveries",
                  "tolerated_deliveries", "wire_octets", "escapes", "noise_octets", "overlong_frames", "dlcis",
-                 "echoes_queued", "scenarios_abandoned_in_window")
+                 "echoes_queued", "scenarios_abandoned_in_window", "history_dependent_keys", "verify_requests",
+                 "sampled_traces_rerun_alone", "sampled_traces_differing")
         for k in sums + other:
             c[k] = 0
         bfs, complete, depth = {}, True, 0
-        for r in results:
-            ok = _report(ctx, r)
+        confirmed = set()
+        oks = [_report(ctx, r, confirmed) for r in results]
+        for r, ok in zip(results, oks):
+            if _died(r):
+                _report_crash(ctx, r)
+            _report_hd(ctx, r, confirmed)
             complete = complete and ok
             js = r["js"] or {}
             if r["args"][0] == "bfs" and ok:
@@ -211,9 +256,23 @@ def replay(ctx, case):
     try:
         _exe = _build(b)
         tok = case.get("token", "-")
-        args = ["replay", tok] if tok and tok != "-" else case["args"]
+        if "hd_key" in case:
+            # history-dependent result: only the whole (deterministic) run shows it again
+            r = _job(("replay", case["args"], 1700))
+            r["args"] = case["args"]
+            if case["hd_key"] == "crash":
+                if _died(r):
+                    ctx.violation(case["vkey"], case, "driver died again (rc=%s) at events %s: %s; %s" % (r["rc"], r["crash"], r["err"], HD_TEXT))
+            else:
+                for key, msg, example, note in r["hd"]:
+                    if key == case["hd_key"]:
+                        ctx.violation(case["vkey"], case, "%s (e.g. after %s) - %s; %s" % (msg, example, note, HD_TEXT))
+            return
+        args = ["case", tok] if tok and tok != "-" else case["args"]
         r = _job(("replay", args, 1700))
         r["args"] = case.get("args", args)
         _report(ctx, r)
+        if _died(r):
+            ctx.violation(_crash_key(r["crash"] or tok), case, "driver died (rc=%s) at events %s: %s" % (r["rc"], r["crash"], r["err"]))
     finally:
         cbuild.cleanup(b)
